@@ -150,7 +150,8 @@ def client_build(c, mat):
     from naunet.reactiontype import ReactionType
 
     if c == "A":
-        return Network(filelist=mat["A"], fileformats="kida")
+        # (four cooling processes, named in an order that is not alphabetical: their numbering is part of the sources)
+        return Network(filelist=mat["A"], fileformats="kida", cooling=["RC_HeII", "CIC_HeI", "CEC_HeII", "CIC_HeII"])
     if c == "C":
         return Network(
             filelist=mat["C"],
@@ -467,7 +468,7 @@ def run(ctx):
         "scheduling points are public API call boundaries (the library is single-threaded); every schedule runs in a fresh process forked from a parent that never touched a naunet global",
         "hash = sha256 over include/ src/ python/ with the project name masked (the only embedded date lives in the top-level CMakeLists.txt, outside the hashed trees)",
         "reference hash of a client = rendering it alone in fresh processes under several PYTHONHASHSEED values, twice in a row; these must agree among themselves",
-        "clients: A KIDA/default lists; B UCLCHEM project through RenderCommand (upper-case elements, replacement table, binding energy and yield of #CO); C Leeds with custom element lists and prefix G; D KROME with its own @format/@var/@common; K a second KROME file relying on the default column layout with another @common; F API-built ice network reading #CO's binding energy; G KIDA file with an upper-case element list only (no marker list, no replacement table), whose edit step first reads a second file into the network",
+        "clients: A KIDA/default lists with four cooling processes; B UCLCHEM project through RenderCommand (upper-case elements, replacement table, binding energy and yield of #CO); C Leeds with custom element lists and prefix G; D KROME with its own @format/@var/@common; K a second KROME file relying on the default column layout with another @common; F API-built ice network reading #CO's binding energy; G KIDA file with an upper-case element list only (no marker list, no replacement table), whose edit step first reads a second file into the network",
     ]
     return {
         "states": nsched + nexec,
